@@ -394,6 +394,12 @@ pub fn remaining_file_content<'a>(input: &'a mut LineReader) -> Result<&'a str, 
         .is_some()
     {}
 
+    // Everything up to the end of the input is consumed here, so an IO error that ended the input
+    // has to be reported now.
+    if let Err(err) = input.reader.check_io_error() {
+        return Err(err.into());
+    }
+
     let bytes = input.reader.buf();
 
     match (std::str::from_utf8(bytes), bytes.last()) {
